@@ -50,6 +50,11 @@ RULE = ("component ops: one call of HaarConv / FindLocalPeaks / FDRThres / Unify
         "and beyond n) against the model's hiIdx / loIdx and the source expressions re-read by the translator; the "
         "arguments hmm_get_model really hands to pomegranate's from_matrix against the generated start vector / "
         "transition matrix. "
+        "Round 5: op fdr_cdf = the real FDRThres and the keep test |x| >= T of haarSeg on peak arrays (gaussian, dyadic with "
+        "ties, largest peak at 1 +- 1 ulp, far-out peaks with p-values passing up to an index inside the array, constants; "
+        "M 0..40, q 0..1, stdev 0..3) against the model with the scipy cdf values as a table, plus the statements of "
+        "Props/C11Fdr on the real output; op hmm_states = hmm_get_model run up to from_matrix for hmm-germline, hmm-tumor "
+        "and hmm against the generated state tables. "
         "SEARCH, NOT PROOF: a failing profile is a real counterexample (VIOLATION with the "
         "profile as replay), a passing run proves nothing about unseen profiles. non-trivial = the op's output is non-empty / has a breakpoint; distinct by hash")
 EXHAUSTIVE = {"quick": False, "thorough": False}
